@@ -313,7 +313,8 @@ def r18_4(ctx, m):
         t = norm(c.test) if isinstance(c, ast.If) else norm(c)
         subs = [s_ for s_ in ast.walk(c.test if isinstance(c, ast.If) else c) if isinstance(s_, ast.Subscript) and "tags['SN']" in norm(s_)]
         outer = [s_ for s_ in subs if norm(s_).endswith("tags['SN'][0]")]
-        ok = not outer and "len(set(" in t and "!= 1" in t.replace("== 1", "!= 1") and ("!= 1" in t or "> 1" in t)
+        cmp1 = any(isinstance(x, ast.Compare) and isinstance(x.left, ast.Call) and norm(x.left.func) == "len" and const_value(x.comparators[0], None) == 1 and isinstance(x.left.args[0], (ast.Call, ast.SetComp)) for x in ast.walk(c.test if isinstance(c, ast.If) else c))
+        ok = not outer and cmp1
         ctx.check(ok, "R18.4", dec.where(c), "the contig-name condition compares the SN tag values of the scaffold nodes (the whole tag or its value element), not the type letter, which is the same for every node", key_of(dec, f"sn-condition:{t[:120]}"), condition=t[:200])
     deg = [c for c in conds if "degree" in norm(c)]
     ctx.check(len(deg) >= 2, "R18.4", dec.where(), "the degree census (two ends of degree 1, all others of degree 2) leads to the skip return", key_of(dec, f"degree-conditions:{len(deg)}"))
